@@ -70,6 +70,9 @@ def gen(W):
     sc["use_poll"] = W.chance(0.3)
     sc["sched"], sc["trace"] = common.draw_sched(W, walk_p=0.5)
     sc["sub_seed"] = W.draw(1 << 30)
+    # the failure may also come from the server's own handling of the application's data: a header value
+    # that cannot be encoded makes the first write raise inside the server
+    sc["unencodable_header"] = W.chance(0.12)
     return sc
 
 
@@ -101,7 +104,10 @@ def one_run(sc, placement, sub_id):
         pos += s_
     total = len(body)
     cl = {"exact": total, "none": None, "larger": total + 11, "smaller": max(0, total - 5)}[sc["cl"]]
-    script = {"status": sc["status"], "headers": [("X-App", "yes")], "cl": cl, "chunks": chunks,
+    app_headers = [("X-App", "yes")]
+    if sc.get("unencodable_header"):
+        app_headers.append(("X-Owner", "Zo\u0142a \u20ac " + SECRET))
+    script = {"status": sc["status"], "headers": app_headers, "cl": cl, "chunks": chunks,
               "kind": sc["kind"], "sr_late": sc["sr_late"] and sc["kind"] in ("gen", "list")}
     if sc["method"] == "POST":
         script["read_input"] = True
@@ -162,6 +168,11 @@ def one_run(sc, placement, sub_id):
             sc["kind"], sc["status"][:3], sc["cl"], sc["sizes"], sc["method"], sc["version"], sc["expose"], sc["log_socket_errors"], placement, msg)))
 
     fired = any(e[2] == "app_raise" for e in k.history) or any(e[2] == "fault" for e in k.history)
+    if sc.get("unencodable_header") and not placement:
+        # treated like an application failure before output
+        placement = ["exc", "header-encoding", "UnicodeEncodeError"]
+        ptag = "UnicodeEncodeError@header"
+        fired = True
     s = sim.conns.get(0)
     wire = bytes(s.wire) if s else b""
     rec = app.calls[0] if app.calls else None
